@@ -15,6 +15,12 @@ func (f Root) Append(buf []byte, bracket, first bool) []byte {
 func (f Root) locate(pp Expr, data any, rest Expr, max int) (locs []Expr) {
 	if 0 < len(rest) {
 		locs = rest[0].locate(append(pp, f), data, rest[1:], max)
+	} else {
+		// The root alone locates the data itself.
+		loc := make(Expr, len(pp)+1)
+		copy(loc, pp)
+		loc[len(pp)] = f
+		locs = []Expr{loc}
 	}
 	return
 }
